@@ -48,10 +48,15 @@ class XmlGenerator(TreeListener):
                 break
         items = []
         for f in ["start", "value"]:
-            val = getattr(tree, f).value
-            if val is None:
-                continue
-            items.append(E("item", E("real", value=str(val)), name=f))
+            node = getattr(tree, f)
+            if isinstance(node, ast.Primary):
+                if node.value is None:
+                    continue
+                items.append(E("item", E("real", value=str(node.value)), name=f))
+            elif node in self.xml:
+                # Not a plain literal (e.g. the signed number -1, which is
+                # parsed as a unary expression): emit the expression
+                items.append(E("item", self.xml[node], name=f))
 
         for f in ["fixed"]:
             val = getattr(tree, f).value
